@@ -1203,14 +1203,59 @@ def _same_entry(p, inserts, by_id):
     return val is not None and key is not None and val == key
 
 
+ID_TYPES = ("desert_core::StringId", "desert_core::RefId")
+
+
+def _id_bumpers(core):
+    """functions that step an id: every local function storing into the number of a StringId / RefId.  -> {def: ok?} where ok
+    means: one path, one store, `x.0 = x.0 + 1` on the id passed by `&mut`"""
+    out = {}
+    for b in core.bodies.values():
+        if b.test or b.kind == "Closure":
+            continue
+        hit = False
+        for blk in b.blocks:
+            for st in blk["stmts"]:
+                if st["k"] != "assign" or not st["place"]["proj"]:
+                    continue
+                ty = b.locals[st["place"]["local"]]["ty"]
+                for pr in st["place"]["proj"]:
+                    if pr["p"] == "deref":
+                        ty = ty.get("t", {}) if ty.get("k") in ("ref", "ptr") else {}
+                    elif pr["p"] == "field":
+                        if ty.get("k") == "adt" and ty.get("path") in ID_TYPES:
+                            hit = True
+                        ty = pr["ty"]
+                    else:
+                        ty = {}
+        if not hit:
+            continue
+        ps = [p for p in walk.walk(b, core, auto_inline=False) if p.outcome[0] == "return"]
+        okk = len(ps) == 1 and len(ps[0].stores()) == 1
+        if okk:
+            s_ = ps[0].stores()[0]
+            v = s_[2]
+            okk = v[0] == "bin" and v[1] == "Add" and norm(v[2]) == norm(s_[1]) and guards.rng(v[3]) == (1, 1)
+        out[b.defn] = (bool(okk), b.key)
+    return out
+
+
+def _contains(term, keys):
+    return any(repr(norm(x)) in keys for x in mir.walk_expr(term))
+
+
 def state_tables(an, rep):
-    R = rep.rule("T11", "State::store_string / store_ref: occupied -> existing id, no mutation; vacant -> next() (pre-increment "
-                        "by 1 from Default = 0, so ids start at 1), both maps updated with the same id; StringId/RefId::next "
-                        "add exactly 1; both sides of the wire use this one numbering function")
+    R = rep.rule("T11", "State::store_string / store_ref: known key -> existing id, nothing touched; new key -> the id is stepped "
+                        "exactly once (by exactly 1, from the derived Default 0, so ids start at 1), the value is filed under "
+                        "the new id and the new id under that very value, and the new id is returned; both sides of the wire "
+                        "use this one numbering function")
     core = an.core()
-    for fn, idf, by_id, nextk, variants in (
-            ("State::store_string", "last_string_id", "strings_by_id", "StringId::next", ("StringAlreadyStored", "StringIsNew")),
-            ("State::store_ref", "last_ref_id", "refs_by_id", "RefId::next", ("RefAlreadyStored", "RefIsNew"))):
+    bumpers = _id_bumpers(core)
+    for d, (okk, key) in sorted(bumpers.items()):
+        R.check(okk, key, "increment", "a function that steps a StringId / RefId must add exactly 1", None, sample={key: "+1"})
+    R.floor("id stepping functions", len(bumpers), 2)
+    for fn, variants in (("State::store_string", ("StringAlreadyStored", "StringIsNew")),
+                         ("State::store_ref", ("RefAlreadyStored", "RefIsNew"))):
         b = core.find(fn)
         if not b:
             R.anchor_missing(fn)
@@ -1220,56 +1265,66 @@ def state_tables(an, rep):
             v = None
             for a in p.atoms():
                 c = a[1]
-                if c[0] == "discr" and "entry" in show(c[1]):
-                    v = walk.atom_variant(a)
+                if c[0] == "discr" and "entry" in show(c[1]) and "$self" in show(c[1]):
+                    v = walk.atom_variant(a) or v
                 elif c[0] == "discr":
-                    # lookup form: `if let Some(id) = self.ids_by_x.get(&key)` ... else insert
+                    # lookup form: `if let Some(id) = self.<map>.get(&key)` .. else insert; the key derives from the argument
                     g = peel_opt(c[1], True)
-                    if g[0] == "call" and g[1].endswith("::get") and g[3] and "$self" in show(g[3][0]) and by_id not in show(g[3][0]):
-                        v = {"Some": "Occupied", "None": "Vacant"}.get(walk.atom_variant(a))
-                elif c[0] == "call" and c[1].endswith("::contains_key") and c[3] and "$self" in show(c[3][0]) and \
-                        by_id not in show(c[3][0]):
+                    if g[0] == "call" and g[1].endswith("::get") and len(g[3]) == 2 and "$self" in show(g[3][0]) and \
+                            any(x[0] == "arg" and x[1] == 2 for x in mir.walk_expr(g[3][1])):
+                        v = {"Some": "Occupied", "None": "Vacant"}.get(walk.atom_variant(a)) or v
+                elif c[0] == "call" and c[1].endswith("::contains_key") and len(c[3]) == 2 and "$self" in show(c[3][0]) and \
+                        any(x[0] == "arg" and x[1] == 2 for x in mir.walk_expr(c[3][1])):
                     v = "Occupied" if guards.truth(a[2]) else "Vacant"
             if v is None or p.outcome[0] != "return":
                 continue
             seen.add(v)
-            nexts = called(p, nextk)
+            def is_bump(c):
+                if c[4] in bumpers:
+                    return True
+                # a trait method called on a type parameter (generic table): every implementation steps an id
+                if "::" in c[2] and not c[2].startswith("<"):
+                    tr, m = c[2].rsplit("::", 1)
+                    impls = [k for _, k in bumpers.values() if k.endswith(" as %s>::%s" % (tr, m))]
+                    return len(impls) >= 1 and len(impls) == sum(1 for b2 in core.bodies.values()
+                                                                   if b2.key.endswith(" as %s>::%s" % (tr, m)))
+                return False
+            bumps = [c for c in p.calls() if is_bump(c)]
             inserts = [c for c in sig_calls(p) if c[2].endswith("::insert")]
             ret = strip_refs(p.outcome[1])
             if v == "Occupied":
-                R.check(not nexts and not inserts and ret[0] == "agg" and ret[3] == variants[0], b.key, "occupied",
+                R.check(not bumps and not inserts and not p.stores() and ret[0] == "agg" and ret[3] == variants[0], b.key, "occupied",
                         "a known key must return the existing id without touching the tables", None, sample={fn: "occupied -> existing id"})
-            else:
-                okk = len(nexts) == 1 and len(inserts) == 2 and ret[0] == "agg" and ret[3] == variants[1]
-                if okk:
-                    i_next = p.events.index(nexts[0])
-                    okk = all(p.events.index(c) > i_next for c in inserts)
-                    ids = [" ".join(show(x) for x in (c[5][-1:] if "VacantEntry" in c[2] else c[5][1:])) for c in inserts]
-                    okk = okk and all(idf in s for s in ids) and idf in show(ret[4][0])
-                    okk = okk and any(by_id in show(c[5][0]) for c in inserts)
-                    if okk:
-                        # identity: the key under which the id is filed is the very value kept for that id (same term up to
-                        # clones and borrows) - a narrowed or re-derived key (data address only, a prefix, a hash) merges
-                        # distinct values
-                        okk = _same_entry(p, inserts, by_id)
-                R.check(okk, b.key, "vacant", "a new key must take the next id (after exactly one next()), insert it into both "
-                        "tables and return it", None, sample={fn: "vacant -> next(); both tables; new id"})
+                continue
+            okk = len(bumps) == 1 and len(inserts) == 2 and ret[0] == "agg" and ret[3] == variants[1]
+            if okk:
+                i_b = p.events.index(bumps[0])
+                okk = all(p.events.index(c) > i_b for c in inserts)
+                # the new id: the value the stepping function returns, or the counter read after it was stepped
+                ids = {repr(norm(bumps[0][7] if len(bumps[0]) > 7 and bumps[0][7] is not None else
+                                 ("call", bumps[0][2], bumps[0][4], bumps[0][5], bumps[0][1], bumps[0][6])))}
+                ctr = strip_refs(bumps[0][5][0])
+                ids.add(repr(norm(ctr)))
+                id_val = key_val = None
+                for c in inserts:
+                    if "VacantEntry" in c[2]:
+                        okk = okk and _contains(c[5][-1], ids)
+                        for e in p.calls():
+                            if e[2].endswith("::entry") and len(e[5]) == 2:
+                                key_val = _unclone(e[5][1])
+                    elif len(c[5]) == 3 and _contains(c[5][1], ids) and not _contains(c[5][2], ids):
+                        id_val = _unclone(c[5][2])                       # by-id table: insert(id, value)
+                    elif len(c[5]) == 3 and _contains(c[5][2], ids):
+                        key_val = _unclone(c[5][1])                      # by-key table: insert(key, id)
+                    else:
+                        okk = False
+                okk = okk and id_val is not None and key_val is not None and id_val == key_val and _contains(ret, ids)
+            R.check(okk, b.key, "vacant", "a new key must step the id exactly once, be filed under the new id, file the new id "
+                    "under that very key, and return the new id", None, sample={fn: "vacant -> step id; both tables; new id"})
         R.check(seen == {"Occupied", "Vacant"}, b.key, "rows", "rows: %s" % sorted(seen))
-    for nk in ("StringId::next", "RefId::next"):
-        b = core.find(nk)
-        if not b:
-            R.anchor_missing(nk)
-            continue
-        ps = [p for p in walk.walk(b, core) if p.outcome[0] == "return"]
-        okk = len(ps) == 1 and len(ps[0].stores()) == 1
-        if okk:
-            s = ps[0].stores()[0]
-            v = s[2]
-            okk = v[0] == "bin" and v[1] == "Add" and norm(v[2]) == norm(s[1]) and guards.rng(v[3]) == (1, 1)
-        R.check(okk, nk, "increment", "next() must add exactly 1", None, sample={nk: "+1"})
     # Default derives: ids start at 0 -> first id is 1
     for adt in core.items["adts"]:
-        if adt["path"] in ("desert_core::StringId", "desert_core::RefId"):
+        if adt["path"] in ID_TYPES:
             d = core.find("<%s as Default>::default" % adt["path"].split("::")[-1])
             okk = d is not None and d.span.get("exp") and "derive" in str(d.span.get("exp")).lower()
             R.check(bool(okk), adt["path"], "Default", "id type must start from the derived Default (0)", None,
